@@ -150,3 +150,5 @@ def run(rep, prog, thorough):
         "group = [^\"]+ (regex AST via re._parser); fields appended in file order as (name, size).")
     check_parse(rep, prog)
     check_fields(rep, prog)
+    from ..effects import check_no_memoised
+    check_no_memoised(rep, prog, 'C16.R3.field-table', ['io_drawer', 'pel.hexdump'], 'the field table of an earlier decode is reused although the header file given now may differ')
